@@ -67,7 +67,8 @@ Verdicts(e) ==
                     IF e.out.http.metrics # 404 /\ ~(e.doc.debug.addr = "ok" /\ e.doc.debug.prometheus) THEN "c17-metrics-served-although-disabled" ELSE "ok",
                     IF (e.out.http.pprof # 404) # (e.doc.debug.addr = "ok" /\ e.doc.debug.pprof) THEN "c17-pprof-gating-wrong" ELSE "ok",
                     IF e.out.http.root # 200 \/ e.out.http.nope # 404 THEN "c17-basic-routes-wrong" ELSE "ok"}
-           metrics == IF AnyErr(e) THEN (IF e.out.gather.ok THEN {"c17-scrape-succeeded-although-ra-generation-fails"} ELSE {})
+           metrics == IF e.autoerr THEN (IF e.out.gather.ok THEN {"c17-scrape-succeeded-although-a-state-read-fails"} ELSE {})
+                      ELSE IF AnyErr(e) THEN (IF e.out.gather.ok THEN {"c17-scrape-succeeded-although-ra-generation-fails"} ELSE {})
                       ELSE IF ~ClockFree(e) THEN {}
                       ELSE IF ~e.out.gather.ok THEN (IF SameLabels(e) THEN {"KF-c17-duplicate-label-set"} ELSE {"c17-scrape-failed"})
                       ELSE IF Obs(e) # WantSamples(e) THEN {"c17-metrics-differ-from-the-ra"} ELSE {}
